@@ -253,13 +253,15 @@ func runC11(res *result) {
 		atoms = gen
 	}
 	if !thorough {
-		// quick: every atom class, thinned deterministically to keep the check short: all decl and
-		// ident atoms in type positions, every third field atom
+		// quick: every atom class, thinned deterministically to keep the check short: all decl atoms,
+		// every field / typedef atom of a bare leaf type (thinning those by position made the selection
+		// depend on how many leaves there are: a new leaf silently replaced other atoms), every third
+		// container field atom, every fourth identifier atom
 		var keep []idl.Atom
 		for i, a := range atoms {
 			switch a.Class {
 			case "field", "typedef":
-				if i%3 == 0 {
+				if i%3 == 0 || !strings.Contains(a.Name, "<") {
 					keep = append(keep, a)
 				}
 			case "ident":
